@@ -17,7 +17,9 @@ var ErrInjected = errors.New("verif: injected read failure")
 // persists must still be reported as this very error.
 type temporaryError struct{}
 
-func (temporaryError) Error() string   { return "verif: injected read failure that calls itself temporary" }
+func (temporaryError) Error() string {
+	return "verif: injected read failure that calls itself temporary"
+}
 func (temporaryError) Temporary() bool { return true }
 func (temporaryError) Timeout() bool   { return true }
 
